@@ -6,10 +6,11 @@ PROP = {
  "functions": [
   "mouette.mesh.mesh_data.RawMeshData._compute_dimensionality",
   "mouette.mesh.mesh_data.RawMeshData.dimensionality",
-  "mouette.mesh.mesh_data.RawMeshData._generate_face_corners"
+  "mouette.mesh.mesh_data.RawMeshData._generate_face_corners",
+  "mouette.mesh.mesh_data.RawMeshData._generate_cell_corners"
  ],
  "level": "other",
- "explanation": "Deductive part: the dimensionality rule (class = highest-dimensional element present) and the generation of face corners (one record per face-vertex incidence, in element order, with vertex and owner face; a stale table is regenerated) are proved for all inputs. Edge filtering / completion with attribute re-indexing, face completion from cells, hard-edge flags, idempotence of rebuilding and independence of the row container type are decided only by the bounded native contract (not a proof).",
+ "explanation": "Deductive part: the dimensionality rule (class = highest-dimensional element present) the generation of face corners (one record per face-vertex incidence, in element order, with vertex and owner face; a stale table is regenerated) and of cell corners (all three cases: both tables generated, owners only, tables given) are proved for all inputs. Edge filtering / completion with attribute re-indexing, face completion from cells, hard-edge flags, idempotence of rebuilding and independence of the row container type are decided only by the bounded native contract (not a proof).",
  "trusted_base": [
   "A1 CPython executes the parsed AST as pyvc models it",
   "A2 floats are mathematical reals",
